@@ -134,6 +134,10 @@ def inline_new_helpers(trees):
                 body = body[1:]
             loop_form = False
             if body and _has_inner_return(body):
+                single = _single_exit(body, "__ret_" + nm.strip("_"))
+                if single is not None:
+                    body = single + [ast.Return(value=ast.Name(id="__ret_" + nm.strip("_"), ctx=ast.Load()))]
+            if body and _has_inner_return(body):
                 # `while/for ...: ... return X` as the last statement: the returns leave the loop with the result
                 pre_, lp_ = body[:-1], body[-1]
                 if isinstance(lp_, (ast.While, ast.For)) and not lp_.orelse and not _has_inner_return(pre_ + [ast.Pass()]) \
@@ -243,7 +247,9 @@ def _inline_calls(caller, calls, h, params, is_method, stmts, ret, assigned, cal
         while not isinstance(st, ast.stmt):
             st = pm[st]
         direct = (isinstance(st, (ast.Expr, ast.Assign, ast.Return, ast.AugAssign, ast.AnnAssign)) and getattr(st, "value", None) is call) \
-            or (isinstance(st, ast.Raise) and st.exc is call)
+            or (isinstance(st, ast.Raise) and st.exc is call) \
+            or (isinstance(st, (ast.For, ast.AsyncFor)) and st.iter is call) \
+            or (isinstance(st, ast.If) and st.test is call)
         if not direct and stmts:
             return False            # a call nested in an expression can only take an expression helper
         if ret is None and not (isinstance(st, ast.Expr) and st.value is call):
@@ -396,3 +402,64 @@ def _inline_loop_helper(tree, h, hcls, static, body, rs, mod):
             ast.fix_missing_locations(caller)
             return True
     return False
+
+
+class _Unsupported(Exception):
+    pass
+
+
+def _has_return(st):
+    return any(isinstance(n, ast.Return) for n in ast.walk(st)) and not isinstance(st, FUNC_TYPES + (ast.ClassDef,))
+
+
+def _always_returns(stmts):
+    if not stmts:
+        return False
+    last = stmts[-1]
+    if isinstance(last, (ast.Return, ast.Raise)):
+        return True
+    if isinstance(last, ast.If) and last.orelse:
+        return _always_returns(last.body) and _always_returns(last.orelse)
+    return False
+
+
+def _single_exit(body, target):
+    """Straight-line / if-structured body with early returns -> the same statements with every `return X`
+    turned into `target = X` in tail position (guard clauses become if/else).  None when a return sits in a
+    loop, try or with (those helpers are left alone).  Loop followed by a final `return X`: for/else."""
+    def elim(stmts):
+        out = []
+        for i, st in enumerate(stmts):
+            if isinstance(st, ast.Return):
+                v = st.value if st.value is not None else ast.Constant(value=None)
+                out.append(ast.copy_location(ast.Assign(targets=[ast.Name(id=target, ctx=ast.Store())], value=v), st))
+                return out
+            if isinstance(st, ast.If) and _has_return(st):
+                rest = stmts[i + 1:]
+                b = elim(list(st.body) + ([] if _always_returns(st.body) else copy.deepcopy(rest)))
+                o = elim(list(st.orelse) + ([] if (st.orelse and _always_returns(st.orelse)) else copy.deepcopy(rest)))
+                new = ast.If(test=st.test, body=b or [ast.Pass()], orelse=o)
+                out.append(ast.copy_location(new, st))
+                return out
+            if isinstance(st, (ast.For, ast.While)) and _has_return(st) and not st.orelse and _returns_only_in(st) \
+                    and i == len(stmts) - 2 and isinstance(stmts[-1], ast.Return):
+                lp = copy.deepcopy(st)
+                r2 = _RetToAssign(target).visit(lp)
+                lp = r2[0] if isinstance(r2, list) else r2
+                fin = stmts[-1].value if stmts[-1].value is not None else ast.Constant(value=None)
+                lp.orelse = [ast.copy_location(ast.Assign(targets=[ast.Name(id=target, ctx=ast.Store())], value=fin), stmts[-1])]
+                out.append(lp)
+                return out
+            if _has_return(st):
+                raise _Unsupported()
+            out.append(st)
+        # fell off the end: the helper returns None
+        out.append(ast.Assign(targets=[ast.Name(id=target, ctx=ast.Store())], value=ast.Constant(value=None)))
+        return out
+    try:
+        res = elim(list(body))
+    except _Unsupported:
+        return None
+    for s_ in res:
+        ast.fix_missing_locations(s_)
+    return res
